@@ -40,6 +40,16 @@ for name in sorted(os.listdir(os.path.join(V, "benign"))):
     verdict = "silent" if r.get("silent") and r.get("existing_tests_pass_with_patch") else "ATTENTION"
     detail = " ".join("%s:rc=%d" % (k, v["rc"]) for k, v in r.get("checks", {}).items())
     rows.append((name, ids, verdict, detail)); print(name, verdict, detail, flush=True)
+# the table lists every stored change with its LAST evaluation (this run's or an earlier one's)
+rows = []
+for name in sorted(os.listdir(os.path.join(V, "benign"))):
+    mp = os.path.join(V, "benign", name, "meta.json")
+    if not os.path.isfile(mp):
+        continue
+    ev = json.load(open(mp)).get("evaluated", {})
+    ids = list(ev.get("checks", {}))
+    verdict = "silent" if ev.get("silent") else "ATTENTION"
+    rows.append((name, ids, verdict, " ".join("%s:rc=%d" % (k, v["rc"]) for k, v in ev.get("checks", {}).items())))
 with open(os.path.join(V, "benign", "RESULTS.md"), "w") as f:
     f.write("# Property-preserving changes: every check must stay silent\n\nWritten by `lib/benignregress.py` (each change: the repository's tests of the touched packages, then `./check <ID> quick` of its own property and of every property anchored in the files it touches, against a scratch copy with the change applied).\n\n| change | files | checks run | verdict |\n|---|---|---|---|\n")
     for name, ids, verdict, detail in rows:
